@@ -92,7 +92,43 @@ func (s *Stream) groupFieldOutputName(gf string) string {
 	if a, ok := s.config.SelectAlias[gf]; ok && a != "" {
 		return a
 	}
+	// A back-quoted column is reported under its name, without the quotes, as
+	// the direct path does.
+	if name, quoted := unquoteGroupField(gf); quoted {
+		if a, ok := s.config.SelectAlias[name]; ok && a != "" {
+			return a
+		}
+		return name
+	}
+	if a, ok := s.config.SelectAlias["`"+gf+"`"]; ok && a != "" {
+		return a
+	}
 	return s.stripJoinAlias(gf)
+}
+
+// unquoteGroupField returns the column name of a back-quoted GROUP BY field.
+func unquoteGroupField(gf string) (string, bool) {
+	if len(gf) > 2 && gf[0] == '`' && gf[len(gf)-1] == '`' && !strings.Contains(gf[1:len(gf)-1], "`") {
+		return gf[1 : len(gf)-1], true
+	}
+	return gf, false
+}
+
+// groupFieldNeedsInjection reports whether a GROUP BY field is something other
+// than a plain top-level column name: a function expression, a back-quoted name
+// or a path into the row (dev.id, data[0]). Windows that keep state per key, and
+// the aggregator for the first two, read the key as row[field], so the resolved
+// value is written into the row under the field text. A column qualified with a
+// stream/table alias (m.location) is left to the aggregator alone, as before: a
+// counting window over a JOIN counts the joined rows, not the rows per group.
+func (s *Stream) groupFieldNeedsInjection(gf string) bool {
+	if strings.Contains(gf, "(") {
+		return true
+	}
+	if _, quoted := unquoteGroupField(gf); quoted {
+		return true
+	}
+	return fieldpath.IsNestedField(gf) && s.stripJoinAlias(gf) == gf
 }
 
 // isInternalAggPlaceholder reports whether a SelectFields key is an internal
@@ -212,16 +248,33 @@ func (s *Stream) projectGroupColumns(results []map[string]any) {
 // injectGroupKeyExprs 对函数表达式分组键（如 upper(device)）就地求值并写入行，使窗口与
 // aggregator 能按该合成键分组（它们只按 row[key] 取值，不求值）。裸列键无需处理。
 // 仅窗口路径在 Window.Add 前调用；dataMap 为 Emit 拷贝或 JOIN 增强副本，注入安全。
+//
+// Back-quoted names and paths into the row (dev.id) are resolved the same way:
+// the counting, session and global windows keep their state per key and look the
+// key up as row[field], so without the resolved value every row fell into the
+// NULL key and the window counted across groups.
 func (s *Stream) injectGroupKeyExprs(data map[string]any) {
 	for _, gf := range s.config.GroupFields {
-		if !strings.Contains(gf, "(") {
+		if strings.Contains(gf, "(") {
+			v, err := functions.GetExprBridge().EvaluateExpression(gf, data)
+			if err != nil {
+				continue
+			}
+			data[gf] = v
 			continue
 		}
-		v, err := functions.GetExprBridge().EvaluateExpression(gf, data)
-		if err != nil {
+		if name, quoted := unquoteGroupField(gf); quoted {
+			if v, ok := data[name]; ok {
+				data[gf] = v
+			}
 			continue
 		}
-		data[gf] = v
+		if s.groupFieldNeedsInjection(gf) {
+			// The path decides, as it does in the aggregator; a missing path is
+			// the NULL key.
+			v, _ := fieldpath.GetNestedField(data, gf)
+			data[gf] = v
+		}
 	}
 }
 
